@@ -1,29 +1,19 @@
 import Driver.Util
 import PytezosModel.Crypto.Encoding
+import PytezosModel.Crypto.RealHash
 open Driver Base58 Impl.Encoding
 
 /-! line protocol (strings and bytes in hex, `-` = empty):
-  `enc <prefix> <payload> <cks>`   base58_encode(payload, prefix)      → `ok <string>` | `err <site>`
-  `dec <string> <cks>`             base58_decode(string)               → `ok <payload>` | `err <site>`
-  `val <name> <string> <cks>`      is_xxx(string)                      → `true` | `false` | `nofunc`
+  `enc <prefix> <payload>`         base58_encode(payload, prefix)      → `ok <string>` | `err <site>`
+  `dec <string>`                   base58_decode(string)               → `ok <payload>` | `err <site>`
+  `val <name> <string>`            is_xxx(string)                      → `true` | `false` | `nofunc`
   `b58e <bytes>` / `b58d <string>` base58.b58encode / base58.b58decode → `ok <…>` | `err …`
+  `cks <bytes>`                    the checksum alone (first four bytes of SHA-256(SHA-256 bytes))
   `table` / `validators`           dump of the regenerated tables
-`<cks>` = `key:check,key:check,…`: the real double-SHA-256 checksums of the byte strings the call needs
-(computed by the harness); a key that is needed but missing is reported, never defaulted. -/
+The checksum is `RealHash.cks` (executable SHA-256, `Core/HashSha2.lean`): the driver computes the complete Base58Check
+text itself; nothing is handed in by the harness. -/
 
-def parsePairs (s : String) : Option (List (List Nat × List Nat)) :=
-  if s = "-" then some [] else
-  (s.splitOn ",").mapM fun kv =>
-    match kv.splitOn ":" with
-    | [k, c] => do let k ← parseHex k; let c ← parseHex c; pure (k, c)
-    | _ => none
-
-def cksOf (pairs : List (List Nat × List Nat)) (v : List Nat) : List Nat :=
-  match pairs.find? (·.1 == v) with
-  | some p => p.2
-  | none => []
-
-def hasKey (pairs : List (List Nat × List Nat)) (v : List Nat) : Bool := pairs.any (·.1 == v)
+def cks : List Nat → List Nat := RealHash.cks
 
 def errSite (fn : String) : Err → String
   | .unrecognisedSource => "unrecognised-source"
@@ -33,41 +23,37 @@ def errSite (fn : String) : Err → String
   | .invalidChecksum => "ValueError@b58decode_check"
   | .unknownPrefix => "ValueError@_validate"
 
-/-- the byte string whose checksum `base58_decode(s)` looks at, if it gets that far -/
-def decodeKey (s : List Nat) : Option (List Nat) :=
-  (b58dec (rstrip s)).map fun r => r.take (r.length - 4)
-
 def rowStr (r : Row) : String :=
   s!"{toHex r.human}/{r.encLen}/{toHex r.bin}/{r.dataLen}"
 
 def handle (line : String) : String :=
   match words line with
-  | ["enc", pfx, payload, pairs] =>
-    match parseHex pfx, parseHex payload, parsePairs pairs with
-    | some pfx, some v, some pairs =>
-      let need := (findEncodeRow table v.length pfx).map fun r => r.bin ++ v
-      if need.any (fun k => !hasKey pairs k) then "err cks-missing" else
-      match base58Encode (cksOf pairs) v pfx with
+  | ["enc", pfx, payload] =>
+    match parseHex pfx, parseHex payload with
+    | some pfx, some v =>
+      match base58Encode cks v pfx with
       | .ok s => s!"ok {toHex s}"
       | .error e => s!"err {errSite "base58_encode" e}"
-    | _, _, _ => "bad-op"
-  | ["dec", s, pairs] =>
-    match parseHex s, parsePairs pairs with
-    | some s, some pairs =>
-      if (decodeKey s).any (fun k => !hasKey pairs k) then "err cks-missing" else
-      match base58Decode (cksOf pairs) s with
+    | _, _ => "bad-op"
+  | ["dec", s] =>
+    match parseHex s with
+    | some s =>
+      match base58Decode cks s with
       | .ok v => s!"ok {toHex v}"
       | .error e => s!"err {errSite "base58_decode" e}"
-    | _, _ => "bad-op"
-  | ["val", name, s, pairs] =>
-    match parseHex s, parsePairs pairs with
-    | some s, some pairs =>
-      if (decodeKey s).any (fun k => !hasKey pairs k) then "err cks-missing" else
-      match isKind (cksOf pairs) name s with
+    | none => "bad-op"
+  | ["val", name, s] =>
+    match parseHex s with
+    | some s =>
+      match isKind cks name s with
       | some true => "true"
       | some false => "false"
       | none => "nofunc"
-    | _, _ => "bad-op"
+    | none => "bad-op"
+  | ["cks", bs] =>
+    match parseHex bs with
+    | some bs => toHex (cks bs)
+    | none => "bad-op"
   | ["b58e", bs] =>
     match parseHex bs with
     | some bs => s!"ok {toHex (b58enc bs)}"
